@@ -7,6 +7,12 @@ BASELINE_OFF = "for m in $(cat /w/out/gomods.txt); do MF=$(cd /repo/$m && . /w/o
 
 # id -> (level text, level_note, technique)
 CLAIMED = {
+ "C15": ("structural analysis of GCPMultiEndpoint routing/reconfiguration: single delegation with all arguments to the connection picked for the call's own context, default-fallback condition as a truth table, pool = pools[me.Current()] under the read lock, dial only without a pool and insertion under the same name, deletion ⇔ endpoint no longer mentioned and paired with Close+stopMonitoring, MultiEndpoint map synchronised with the options, status sync loop before every success return, monitor notifies the state it then waits on to every MultiEndpoint; plus lock discipline",
+         "'within bounded time' and which server receives the RPC are not decided",
+         "static analysis: reaching-condition truth tables + pairing/dominance + provenance on go/ssa"),
+ "C16": ("structural analysis of rejection and release: no routing-relevant effect can precede an error return of UpdateMultiEndpoints, or the error is infeasible by a callee-precondition lemma (callee fails only for an empty list; an up-front validation loop over the same option map rejected empty lists before the first effect); pool additions are routing-neutral; no MultiEndpoint error dropped; failed construction releases; Close stops/closes everything under the lock; the only goroutine is the cancellable monitor whose cancel is stored and called",
+         "a dial failure keeps already dialed pools registered (closed later); behaviour of grpc.ClientConn.Close and goroutine counts at run time are not measured",
+         "static analysis: effect-before-return path analysis + interprocedural precondition lemma + who-may-go on go/ssa"),
  "C13": ("structural analysis of the MultiEndpoint 'current' variable: allowed writers, every stored value is the id (or successful lookup key) of an endpoint read from the table in the same write-locked critical section (through parameters at every call site), ids equal table keys, every mutator re-evaluates current after its last table/status/priority write on every path, fallback-to-first and switch decisions and both argmin loops as exact truth tables, gone current always re-assigned, empty lists rejected before any effect, every listed endpoint inserted (table never empty), constructor timers cannot observe a half-built table; plus lock discipline of the package",
          "'current is the highest-priority available endpoint after every operation' over all histories and timer orders needs state exploration; decided are the per-critical-section necessary conditions",
          "static analysis: reaching-condition truth tables + provenance + must-pass-through + lock-state facts on go/ssa"),
